@@ -1,4 +1,4 @@
-"""Self-test of the ops in strf2ops.py, cli2ops.py and durtextqops.py.
+"""Self-test of the ops in strf2ops.py, cli2ops.py, durtextqops.py, rectextops.py and truncqops.py.
 
     cd /verif && /venv/bin/python harness/test_newops.py [--tier quick|thorough] [--seeds N] [--no-mutants]
 
@@ -21,8 +21,11 @@ import engine                      # noqa: E402
 import strf2ops                    # noqa: E402
 import cli2ops                     # noqa: E402
 import durtextqops                 # noqa: E402
+import rectextops                  # noqa: E402
+import truncqops                   # noqa: E402
 
-OPS = [strf2ops.Strftime2Op, strf2ops.UnixQOp, cli2ops.CliEvalOp, durtextqops.DurTextQOp]
+OPS = [strf2ops.Strftime2Op, strf2ops.UnixQOp, cli2ops.CliEvalOp, durtextqops.DurTextQOp, rectextops.RecTextOp,
+       truncqops.AddTruncQOp]
 
 
 def short(x, n=220):
@@ -110,8 +113,24 @@ class Patch:
             setattr(self.obj, self.name, self.saved)
 
 
+def add_truncated_without_ceil():
+    """TimePoint.add_truncated as it was before the repair: the step that moves a point inside a second on to the next
+    whole second is cut out of the source."""
+    import inspect
+    import textwrap
+    from metomi.isodatetime import data
+    src = textwrap.dedent(inspect.getsource(data.TimePoint.add_truncated))
+    start = src.index("if new._second_of_minute != int(new._second_of_minute):")
+    end = src.index("if second_of_minute is not None:", start)
+    src = src[:start] + "pass\n    " + src[end:]
+    scope = {}
+    exec(compile(src, "<add_truncated without the ceil step>", "exec"), vars(data), scope)
+    return scope["add_truncated"]
+
+
 def mutants():
     from metomi.isodatetime import data, parser_spec
+    orig_rec_str = data.TimeRecurrence.__dict__["__str__"]
     orig_str = data.Duration.__dict__["__str__"]
     orig_from = data.get_timepoint_from_seconds_since_unix_epoch
     orig_since = data.TimePoint.__dict__["seconds_since_unix_epoch"]
@@ -121,6 +140,10 @@ def mutants():
         return str(v - 1 if v < 0 else v)
 
     return [
+        ("TimeRecurrence.__str__ drops the repetitions", rectextops.RecTextOp, True,
+         [Patch(data.TimeRecurrence, "__str__", lambda self: re.sub(r"^R[0-9]+/", "R/", orig_rec_str(self)))]),
+        ("add_truncated without the step to the next whole second (must not terminate, or not be the earliest)",
+         truncqops.AddTruncQOp, True, [Patch(data.TimePoint, "add_truncated", add_truncated_without_ceil())], 700),
         ("%X written with dots in the strftime table", strf2ops.Strftime2Op, False,
          [Patch(parser_spec.STRFTIME_TRANSLATE_INFO, "%X",
                 ["hour_of_day", ".", "minute_of_hour", ".", "second_of_minute"], item=True)]),
@@ -141,7 +164,8 @@ def mutants():
 
 def mutant_runs():
     bad = 0
-    for what, cls, has_oracle, patches in mutants():
+    for what, cls, has_oracle, patches, *rest in mutants():
+        max_cases = rest[0] if rest else None       # a spinning case costs SPIN_LIMIT steps, twice
         op = cls()
         t0 = time.time()
         entered = []
@@ -149,7 +173,7 @@ def mutant_runs():
             for p in patches:
                 p.__enter__()
                 entered.append(p)
-            res = engine.run_ops([op], 0, "quick")
+            res = engine.run_ops([op], 0, "quick", max_cases=max_cases)
         finally:
             for p in reversed(entered):
                 p.__exit__()
